@@ -515,6 +515,7 @@ type Contract struct {
 	Frees    []string
 	Opaque   map[string]bool // callees to treat as opaque even if contracted
 	Inline   bool
+	Stable   []string // locations assumed not to be written by opaque callees (listed assumption)
 }
 
 type ContractSet struct {
@@ -663,6 +664,12 @@ func (cs *ContractSet) LoadContractFile(path, pkgPath string, assumed bool) erro
 			cur.Mode = rest
 		case "opaque":
 			cur.Opaque[rest] = true
+		case "stable":
+			for _, a := range splitTop(rest, ',') {
+				if a = strings.TrimSpace(a); a != "" {
+					cur.Stable = append(cur.Stable, a)
+				}
+			}
 		case "loop":
 			// loop K invariant E | loop K havoc
 			ks, r2 := splitWord(rest)
